@@ -96,6 +96,12 @@ def canonPiece (c : Char) : StrPiece := if (mnemonic? c).isSome then .esc c else
 /-- canonical string literal -/
 def showStr (s : List Char) : List Char := showPieces (s.map canonPiece)
 
+/-- the character names of R7RS: `#\\space` etc. -/
+def charNames : List (List Char × Char) :=
+  [("alarm".toList, '\x07'), ("backspace".toList, '\x08'), ("delete".toList, '\x7f'),
+   ("escape".toList, '\x1b'), ("newline".toList, '\n'), ("null".toList, '\x00'),
+   ("return".toList, '\r'), ("space".toList, ' '), ("tab".toList, '\t')]
+
 /-- Identifiers the lexer reads without bars:
 * `<initial> <subsequent>*`,
 * `+`, `-`, and `<sign> <sign subsequent> <subsequent>*` (sign subsequent: initial, `+`, `-`, `@`),
@@ -345,5 +351,50 @@ end
 def render (d : Syn) (layout : List (List Char)) : List Char := interleave d.toks layout
 
 end Syn
+
+/-! ## Data as written text -/
+
+namespace Syn
+mutual
+/-- the canonical written form of a datum: lists as `( … )`, improper lists as `( … . t)`,
+vectors as `#( … )`; `(quote x)` is written in full -/
+def ofDatum : Datum → Syn
+  | .prim p _ => .atom (.prim p)
+  | .sym s _ => .atom (.ident s)
+  | .nil _ => .list []
+  | .vec xs _ => .vec (ofDatums xs)
+  | .pair a d _ =>
+    match (ofTail d).2 with
+    | none => .list (ofDatum a :: (ofTail d).1)
+    | some t => .dotted (ofDatum a :: (ofTail d).1) t
+/-- the elements of the cdr chain and its improper end, if any -/
+def ofTail : Datum → List Syn × Option Syn
+  | .pair a d _ => (ofDatum a :: (ofTail d).1, (ofTail d).2)
+  | .nil _ => ([], none)
+  | .prim p _ => ([], some (.atom (.prim p)))
+  | .sym s _ => ([], some (.atom (.ident s)))
+  | .vec xs _ => ([], some (.vec (ofDatums xs)))
+def ofDatums : List Datum → List Syn
+  | [] => []
+  | x :: xs => ofDatum x :: ofDatums xs
+end
+end Syn
+
+mutual
+/-- all atoms of the datum are supported tokens -/
+def SupportedD : Datum → Prop
+  | .prim p _ => SupportedTok (.prim p)
+  | .sym s _ => SupportedTok (.ident s)
+  | .nil _ => True
+  | .vec xs _ => SupportedDs xs
+  | .pair a d _ => SupportedD a ∧ SupportedD d
+def SupportedDs : List Datum → Prop
+  | [] => True
+  | x :: xs => SupportedD x ∧ SupportedDs xs
+end
+
+/-- the text of a datum under a layout: its canonical written form (`Syn.ofDatum`) -/
+def renderDatum (d : Datum) (layout : List (List Char)) : List Char :=
+  (Syn.ofDatum d).render layout
 
 end Ruschm.Text
